@@ -651,8 +651,11 @@ class Discharger:
             params = {f.local_name(p) for p in range(1, f.argc + 1)}
             liftable = f.key not in self.entries and all(
                 (isinstance(v, tuple) and ((v[0] in ("len", "local") and v[1] in params) or v[0] == "constparam")) for v in vs)
+            split = None if liftable else self.split_multidef(f, goal, facts, econs, params)
             if liftable:
                 lifted.append((goal, "%s (%s)" % (desc, s.text)))
+            elif split is not None:
+                lifted += [(g_, "%s (%s)" % (d_, s.text)) for g_, d_ in split]
             else:
                 return ("fail", "%s: cannot show %s from the guards on the path (known: %s)" % (
                     desc, L.lin_repr(goal[0]) + (" >= 0" if goal[1] == ">=" else " == 0"),
@@ -660,6 +663,45 @@ class Discharger:
         if lifted:
             return ("lift", lifted)
         return ("ok", "entailed by %d dominating fact(s)" % len(facts))
+
+    def split_multidef(self, f, goal, facts, econs, params):
+        """The goal mentions the length of a slice local that has several definitions (e.g.
+        `let k = if n <= 128 { key } else { &hashed }`): decide it definition by definition, each under
+        the branch facts of that definition.  A definition under which the goal fails is acceptable only
+        if it can be excluded by a precondition on the parameters (the negation of its single branch
+        fact), which is then lifted to the callers.  Returns the list of lifted goals ([] if none is
+        needed) or None if the goal cannot be decided this way."""
+        lctx = L.Ctx(f, cm.view_info)
+        for v in L.lin_vars(goal[0]):
+            if not (isinstance(v, tuple) and v[0] == "len"):
+                continue
+            locs = [l for l in range(f.argc + 1, len(f.locals)) if lctx.name(l) == v[1] and len(def_sites(f, l)) > 1]
+            if len(locs) != 1:
+                continue
+            l = locs[0]
+            out = []
+            for d in def_sites(f, l):
+                ln = lctx._length_of_def(l, d, 1)
+                if ln is None or v in L.lin_vars(ln):
+                    return None
+                coef = goal[0][v]
+                g_lin = dict(goal[0])
+                g_lin.pop(v)
+                g_d = (L.lin_add(g_lin, L.lin_scale(ln, coef)), goal[1])
+                fd = L.facts_at(f, d[0], econs)
+                allf = facts + fd + self.shape_facts(f, g_d) + L.nonneg_facts([g_d[0]] + [c_[0] for c_ in facts + fd])
+                if L.entails(allf, g_d):
+                    continue
+                # exclude this definition by a precondition: it must be guarded by exactly one fact over
+                # the parameters
+                own = [c_ for c_ in fd if c_ not in facts]
+                if f.key in self.entries or len(own) != 1 or own[0][1] != ">=":
+                    return None
+                if not all(isinstance(x, tuple) and ((x[0] in ("len", "local") and x[1] in params) or x[0] == "constparam") for x in L.lin_vars(own[0][0])):
+                    return None
+                out.append((L.negate(own[0]), "the definition of `%s` at %s is never taken: not(%s >= 0)" % (v[1], f.loc(d[0]), L.lin_repr(own[0][0]))))
+            return out
+        return None
 
     def size_ok(self, f, lctx, n, depth):
         """every term of an allocation size is an input length (x1 or x2), a const generic, or a size
